@@ -101,6 +101,7 @@ def check(ctx):
     for i in failed[:3]:
         ctx.broken("correspondence:quad-gradient", {"case": meta[i], "coq": cases[i][:1500]})
     oracle(ctx)
+    tuple_object_probe(ctx)
 
 
 def oracle(ctx):
@@ -198,7 +199,7 @@ def oracle(ctx):
                 g2 = torch.autograd.grad(s, (a, b), allow_unused=True)
                 want = 0.0 if name == "linear-all" else 1.0
                 got = 0.0 if g2[0] is None else float(g2[0])
-                if abs(got - want) > 1e-12:
+                if not abs(got - want) <= 1e-12:
                     ctx.fail("oracle", "quadgrad:%s:d2" % name, {}, got, want)
         except Exception as e:
             ctx.fail("oracle", "quadgrad:%s:exception" % name, {}, repr(e)[:300], "second-order gradient of a linear integrand")
@@ -216,6 +217,64 @@ def oracle(ctx):
     cmp("backward-uses-forward-n", g_same, gd, 1e-11)
     exact = torch.autograd.grad(torch.atan(3 * torch.sqrt(ad)) / torch.sqrt(ad), (ad,))[0]
     cmp("bck_options-n-used", g_bck, exact, 1e-8)
+
+
+def tuple_object_probe(ctx):
+    """tuple-valued integrands take a separate branch of quad(): tensors held by the function's object must still receive
+    their gradient, first and second order (seeded defect C13/6)"""
+    import xitorch as xt
+    from xitorch.integrate import quad
+    DT_ = torch.float64
+
+    def pure(x, a, b, c):
+        return torch.cos(a * x + b * c), torch.sin(a * x) * b
+
+    class EMt(xt.EditableModule):
+        def __init__(self, a, b):
+            self.a, self.b = a, b
+
+        def f(self, x, c):
+            return pure(x, self.a, self.b, c)
+
+        def getparamnames(self, methodname, prefix=""):
+            return [prefix + "a", prefix + "b"]
+
+    class NNt(torch.nn.Module):
+        def __init__(self, a, b):
+            super().__init__()
+            self.a, self.b = torch.nn.Parameter(a.detach().clone()), torch.nn.Parameter(b.detach().clone())
+
+        def forward(self, x, c):
+            return pure(x, self.a, self.b, c)
+    res = {}
+    for kind in ("pure", "EditableModule", "nn.Module"):
+        a = torch.tensor([0.9, 1.4], dtype=DT_, requires_grad=True)
+        b = torch.tensor([0.3, -0.6], dtype=DT_, requires_grad=True)
+        c = torch.tensor([1.1, 0.5], dtype=DT_, requires_grad=True)
+        if kind == "pure":
+            y0, y1 = quad(pure, 0.0, 0.7, params=(a, b, c), n=20)
+            lv = [a, b, c]
+        elif kind == "EditableModule":
+            y0, y1 = quad(EMt(a, b).f, 0.0, 0.7, params=(c,), n=20)
+            lv = [a, b, c]
+        else:
+            net = NNt(a, b)
+            y0, y1 = quad(net.forward, 0.0, 0.7, params=(c,), n=20)
+            lv = [net.a, net.b, c]
+        loss = (y0 * y0).sum() + (y0 * y1).sum()
+        g1 = torch.autograd.grad(loss, lv, create_graph=True, allow_unused=True)
+        g1 = [torch.zeros_like(l) if g is None else g for g, l in zip(g1, lv)]
+        s2 = sum((g * g).sum() for g in g1)
+        g2 = torch.autograd.grad(s2, lv, allow_unused=True) if s2.requires_grad else [None] * 3
+        g2 = [torch.zeros_like(l) if g is None else g for g, l in zip(g2, lv)]
+        res[kind] = [t.detach() for t in g1 + g2]
+        ctx.count(("tuple-object", kind), nontrivial=True)
+    for kind in ("EditableModule", "nn.Module"):
+        for nm, x_, y_ in zip(("da", "db", "dc", "d2a", "d2b", "d2c"), res[kind], res["pure"]):
+            if not torch.allclose(x_, y_, rtol=1e-9, atol=1e-11):
+                ctx.fail("oracle", "quadgrad:tuple-integrand:%s:%s" % (kind, nm), {"integrand": "(cos(a x + b c), sin(a x) b)", "function_kind": kind},
+                         x_.tolist(), y_.tolist())
+                break
 
 
 def search(ctx):
